@@ -118,6 +118,14 @@ def fam_states(bits, tail):
         sent += [w, w[:-1], w + [2], w[:bits] + [0] + w[bits + 1:]]
     return Fam('states%d' % (nstates - 4), 1, plain(3), rules, nstates + 40, n + 8, [0, 1, 2], 3, sent, note='%d rules of %d symbols, about %d states' % (n, bits + tail, nstates))
 
+def fam_chain(D):
+    """a nullable unit chain of depth D closed by a feedback rule, written so that every fact travels against the rule order:
+    G -> F S ; F -> eps ; S -> C1 ; C1 -> C2 ; ... ; C(D-1) -> CD ; CD -> eps | S a      (language a*, LR(1), D + 4 rules)
+    nullability needs about D passes over the rules to reach S, FIRST(S) = {a} about D more: more passes than there are rules"""
+    rules = [(0, [N(1), N(2)], None), (1, [], None)] + [(2 + k, [N(3 + k)], None) for k in range(D)] + [(2 + D, [], None), (2 + D, [N(2), T(0)], None)]
+    sent = [[], [0], [0, 0], [0] * 7, [1], [0, 1], [0, 0, 1, 0]]     # terminal 1 is declared and used by no rule
+    return Fam('chain%d' % D, D + 3, plain(2), rules, 2 * D + 40, 4 * D + 40, [0, 1], 5, sent, note='nullable unit chain of depth %d with feedback: %d rules, about %d analysis passes' % (D, D + 4, 2 * D))
+
 def families(tier='quick'):
     F = [fam_terms(62), fam_terms(63), fam_terms(64), fam_terms(65), fam_terms(130), fam_terms(70, True),
          fam_rules(256), fam_rules(257),
@@ -127,10 +135,11 @@ def families(tier='quick'):
          fam_prec([INT_MIN, -70000, -32769, -1, 32767, 32768, 65536, 70000, INT_MAX], 'precwide'),
          fam_prec([-32768, 32768, 65535, 65537, 131072], 'prec16bit'),
          fam_recover(63), fam_recover(129), fam_states(6, 64), fam_terms(258, strings=True), fam_long(257), fam_nterms(258),
-         fam_rprec([INT_MIN, INT_MIN + 1, -65536, -32768, -2, -1, 1, 6, 7, 8, 32767, 65535, INT_MAX - 1, INT_MAX], 'rprecsentinel')]
+         fam_rprec([INT_MIN, INT_MIN + 1, -65536, -32768, -2, -1, 1, 6, 7, 8, 32767, 65535, INT_MAX - 1, INT_MAX], 'rprecsentinel'),
+         fam_chain(6), fam_chain(12), fam_chain(40)]
     if tier != 'quick':
         F += [fam_terms(61), fam_terms(126), fam_terms(127), fam_terms(128), fam_terms(129), fam_terms(200), fam_terms(140, True), fam_terms(200, True),
-              fam_rules(254), fam_rules(255), fam_rules(258), fam_rules(300), fam_nterms(130), fam_long(65), fam_recover(65), fam_recover(200), fam_states(7, 64), fam_terms(300, dense=False, strings=True), fam_terms(520, strings=True), fam_long(300)]
+              fam_rules(254), fam_rules(255), fam_rules(258), fam_rules(300), fam_nterms(130), fam_long(65), fam_recover(65), fam_recover(200), fam_states(7, 64), fam_terms(300, dense=False, strings=True), fam_terms(520, strings=True), fam_long(300), fam_chain(100)]
     return F
 
 def sym_cpp(s):
